@@ -414,14 +414,17 @@ Definition cal_len (l : list instr) : nat := length (kind_part KCal l) + length 
 Definition replaced_obs (a b ab : obs) : bool :=
   Nat.ltb (cal_len (fst ab)) (cal_len (fst a) + cal_len (fst b)).
 
+(** the property, strictly: bodies appended, per kind the merge, the used-qubit set is the union *)
 Definition chk_concat (a b ab : obs) : bool :=
   instrs_eqb (body_part (fst ab)) (body_part (fst a) ++ body_part (fst b)) &&
   forallb (fun kd => instrs_eqb (kind_part kd (fst ab))
                                 (vals (merge (sel kd (fst a)) (sel kd (fst b))))) all_kinds &&
-  (* the used-qubit set is the union; when a calibration of [a] was replaced the cache is rebuilt
-     from the listing instead (the union may contain qubits of the replaced calibration) *)
-  (if replaced_obs a b ab then seteqb (snd ab) (flat_map gq (fst ab))
-   else seteqb (snd ab) (snd a ++ snd b)).
+  seteqb (snd ab) (snd a ++ snd b).
+
+(** known class [union-after-calibration-replacement] (the flip side of the C09/C10 repair
+    1fc8c68): a calibration was replaced AND some qubit of the union is missing from the result *)
+Definition union_class (a b ab : obs) : bool :=
+  replaced_obs a b ab && negb (subsetb (snd a ++ snd b) (snd ab)).
 
 Definition obs_eqb (x y : obs) : bool := instrs_eqb (fst x) (fst y) && seteqb (snd x) (snd y).
 
@@ -429,13 +432,16 @@ Definition obs_of (p : program) : obs := (to_instructions p, used p).
 
 (** case: the two instruction sequences, the observations of a, b, a+b, (a += b), a+∅, ∅+b,
     and the implementation's [==] verdicts [a+∅ == a], [∅+b == b], [(a+b) == (a += b)] *)
-Definition c11_case := (list instr * list instr * (obs * obs * obs * obs * obs * obs) * (bool * bool * bool))%type.
+Definition c11_case :=
+  (N * list instr * list instr * (obs * obs * obs * obs * obs * obs) * (bool * bool * bool))%type.
 
+(** [mode = 0]: correspondence with the model only (emitted, untagged, for the pairs in the known
+    class so that they are still compared with the model); otherwise property first, then model *)
 Definition c11_verdict (c : c11_case) : N :=
-  let '(isa, isb, (oa, ob, oab, oab', oa0, o0b), (e1, e2, e3)) := c in
+  let '(mode, isa, isb, (oa, ob, oab, oab', oa0, o0b), (e1, e2, e3)) := c in
   let ok_prop :=
     chk_concat oa ob oab && obs_eqb oab' oab && obs_eqb oa0 oa && obs_eqb o0b ob && e1 && e2 && e3 in
-  if negb ok_prop then 2%N
+  if negb (N.eqb mode 0) && negb ok_prop then 2%N
   else
     let a := from_instructions isa in
     let b := from_instructions isb in
